@@ -62,10 +62,16 @@ def eval_witness(arg):
     """arg: (name, files, unitsA, idx) - B is A without unit idx."""
     name, files, units, idx, want_seq = arg[:5]
     fixtures = arg[5] if len(arg) > 5 else {}
-    A = join_flags(units)
-    B = join_flags(units[:idx] + units[idx + 1 :])
+    cfg = arg[6] if len(arg) > 6 else None
+    if cfg:
+        A, B = ["--config-file", "cfgA.ini"], ["--config-file", "cfgB.ini"]
+        files = dict(files, **{"cfgA.ini": cfg[0], "cfgB.ini": cfg[1]})
+        units, idx = [(name, None)], 0
+    else:
+        A = join_flags(units)
+        B = join_flags(units[:idx] + units[idx + 1 :])
     root = mypyrun.scratch("c09")
-    res = {"name": name, "A": A, "B": B, "flag": units[idx][0], "value": units[idx][1], "files": files, "fixtures": fixtures}
+    res = {"name": name, "A": A, "B": B, "flag": units[idx][0], "value": units[idx][1], "files": files, "fixtures": fixtures, "cfg": cfg}
     try:
         mypyrun.write_files(root, files, mtime=mypyrun.BASE_MTIME)
         mypyrun.install_fixtures(root, fixtures)
@@ -94,6 +100,24 @@ def eval_witness(arg):
     return res
 
 
+DUP = 'a: int = "x"; b: int = "y"\ndef f(x: int, y: int) -> None: ...\nf("x", 1); f("y", 2)\nimport m\n'
+EXTRA_PROGRAMS = {
+    "same-line-duplicates": {"main.py": DUP, "m.py": "1 + ''\n" + DUP.replace("import m\n", "")},
+    "notes-and-context": {"main.py": "from typing import overload\nimport m\nclass A:\n    def f(self) -> None:\n        x: int = ''\n        m.g(b'')\n", "m.py": "from typing import overload\n@overload\ndef g(a: int) -> int: ...\n@overload\ndef g(a: str) -> str: ...\ndef g(a): return a\n"},
+}
+DISPLAY_FLAGS = ["--show-column-numbers", "--show-error-end", "--hide-error-codes", "--pretty", "--show-error-context", "--show-absolute-path", "--show-error-code-links", "--hide-column-numbers"]
+CONFIG_SCENARIOS = [
+    ("config:global-enable-with-module-section", {"main.py": "class C: pass\ndef g(c: C) -> None:\n    if c:\n        pass\n"},
+     "[mypy]\nenable_error_code = truthy-bool\n[mypy-main]\ncheck_untyped_defs = True\n", "[mypy]\n[mypy-main]\ncheck_untyped_defs = True\n"),
+    ("config:global-disable-with-module-section", {"main.py": "x = 1 + ''\ndef g():\n    y: int = ''\n"},
+     "[mypy]\ndisable_error_code = operator\n[mypy-main]\ncheck_untyped_defs = True\n", "[mypy]\n[mypy-main]\ncheck_untyped_defs = True\n"),
+    ("config:module-section-option", {"main.py": "import m\ndef f(x): return x\n", "m.py": "def g(y): return y\n"},
+     "[mypy]\n[mypy-m]\ndisallow_untyped_defs = True\n", "[mypy]\n"),
+    ("config:module-section-error-code", {"main.py": "import m\nx = 1 + ''\n", "m.py": "y = 1 + ''\n"},
+     "[mypy]\n[mypy-m]\ndisable_error_code = operator\n", "[mypy]\n"),
+]
+
+
 def flag_dest():
     """option string -> dest, by reflection."""
     import sys
@@ -115,7 +139,7 @@ def judge(run: Run, res, dests) -> None:
     dest = dests.get(res["flag"].split("=")[0], res["flag"])
     run.label("witnesses")
     run.nontriv(chash([res["files"], res["flag"], res["value"]]))
-    case = {"files": res["files"], "fixtures": res.get("fixtures", {}), "A": res["A"], "B": res["B"], "flag": res["flag"], "value": res["value"], "name": res["name"]}
+    case = {"files": res["files"], "fixtures": res.get("fixtures", {}), "cfg": res.get("cfg"), "A": res["A"], "B": res["B"], "flag": res["flag"], "value": res["value"], "name": res["name"]}
     for label, s in res["seqs"].items():
         f, sec, third, exp = s["first"], s["second"], s["third"], s["expected"]
         if (f[0], f[1]) != (s["expected_first"][0], s["expected_first"][1]):
@@ -133,6 +157,11 @@ def judge(run: Run, res, dests) -> None:
 
 def replay(run: Run, case: dict, origin: str | None = None) -> bool:
     before = len(run.violations)
+    if case.get("cfg"):
+        files = {k: v for k, v in case["files"].items() if not k.startswith("cfg")}
+        res = eval_witness((case.get("name", "replay"), files, [], 0, True, case.get("fixtures", {}), case["cfg"]))
+        judge(run, res, flag_dest())
+        return len(run.violations) == before
     units = split_flags(case["A"])
     idx = [i for i, (f, v) in enumerate(units) if f == case["flag"] and v == case.get("value")]
     res = eval_witness((case.get("name", "replay"), case["files"], units, idx[0], True, case.get("fixtures", {})))
@@ -170,6 +199,17 @@ def run(run: Run) -> None:
         cands.sort(key=lambda w: len(w[2]))
         work.extend(cands[: per_flag * 3])
     run.label("flags_with_candidates", len(by_flag))
+    # hand-written programs for display options (same-line duplicates, notes, import context) and config-file scenarios
+    extra = []
+    for pname, pfiles in EXTRA_PROGRAMS.items():
+        for f in DISPLAY_FLAGS:
+            extra.append((pname, pfiles, [(f, None)], 0, True, {}))
+            extra.append((pname + "+cols", pfiles, [("--show-column-numbers", None), (f, None)], 1, True, {}) if f != "--show-column-numbers" else (pname + "+end", pfiles, [("--show-error-end", None), (f, None)], 1, True, {}))
+    for cname, cfiles, ca, cb in CONFIG_SCENARIOS:
+        extra.append((cname, cfiles, [], 0, True, {}, (ca, cb)))
+    for w, res in zip(extra, pmap(eval_witness, extra, recycle=40)):
+        judge(run, res, dests)
+        run.label("hand_written_witness_candidates")
     witnessed: dict[str, int] = {}
     n = 0
     for w, res in zip(work, pmap(eval_witness, work, recycle=40)):
